@@ -44,7 +44,11 @@ type Plan struct {
 	// ArgOffset: string arguments are handed over as substrings of padded
 	// copies, so that their data starts at offset (task + operation index) mod 8
 	// of an aligned block (word-at-a-time scanners behave differently there).
-	ArgOffset  bool    `json:"arg_offset,omitempty"`
+	ArgOffset bool `json:"arg_offset,omitempty"`
+	// Quantum: a task is made to yield (round robin) after this many statements
+	// without a scheduling point (0: the default of 5000). Lock-step plans use
+	// 1 to 5: the tasks advance almost statement by statement for the whole run.
+	Quantum    int64   `json:"quantum,omitempty"`
 	GCPre      bool    `json:"gc_pre,omitempty"`
 	EphArgs    bool    `json:"eph_args,omitempty"`
 	GCOps      [][]int `json:"gc_ops,omitempty"`
@@ -204,7 +208,7 @@ func (p *Plan) simConfig(trace bool) rt.Config {
 		pd[i] = uint8(d)
 	}
 	return rt.Config{Sched: p.Sched, PreSched: p.PreSched, PoolDec: pd, Preempt: p.Preempt, MaxPoints: p.MaxPoints, Trace: trace,
-		TickNs: p.TickNs, ClockJumps: p.ClockJumps, NumCPU: p.NumCPU, RandSeed: p.Seed | 1, GCPre: p.GCPre}
+		TickNs: p.TickNs, ClockJumps: p.ClockJumps, NumCPU: p.NumCPU, RandSeed: p.Seed | 1, GCPre: p.GCPre, Quantum: p.Quantum}
 }
 
 // argBytes: total size of the string arguments of the plan (long inputs and
